@@ -372,6 +372,10 @@ ConstantsSane ==
 \* for trace validation, not for the loop's control flow)
 FewPendingWaiters == \A p \in Procs : Cardinality(waiters[p]) <= 1
 
+\* Model constraint of the quick two-process configuration: no cancellation
+\* (cancellation is explored exhaustively in the one-process configurations)
+QuietContext == \A p \in Procs : ~cancelled[p]
+
 TypeOK ==
     /\ kind \in {"signing", "dkg"}
     /\ \A p \in Procs :
